@@ -51,7 +51,7 @@ type c09pCase struct {
 	CorruptLocal int         `json:"corrupt_local"`
 }
 
-func c09pGen(r *kit.Rand, idx int) *c09pCase {
+func c09pGen(r *kit.Rand, idx int, thorough bool) *c09pCase {
 	c := &c09pCase{Index: idx, Config: -1, CorruptLocal: -1}
 	nb := r.Range(1, 4)
 	for i := 0; i < nb; i++ {
@@ -68,6 +68,14 @@ func c09pGen(r *kit.Rand, idx int) *c09pCase {
 		if r.Chance(1, 4) {
 			c.Present = append(c.Present, b)
 		}
+	}
+	if thorough && r.Chance(1, 150) {
+		// an upload that never succeeds: blobUpload.Run gives up after 1+2+4+8+16+32 s of sleeps.
+		// Thorough tier only; the only plan in which blobUpload.err reaches blobUpload.Wait.
+		b := r.Intn(len(c.Blobs))
+		c.Present = nil
+		c.Faults = append(c.Faults, c09pFault{Target: fmt.Sprintf("patch:%d", b), Kind: "status500", Times: 1000})
+		return c
 	}
 	if r.Chance(3, 5) {
 		b := r.Intn(len(c.Blobs))
@@ -427,7 +435,7 @@ func TestVerifC09Push(t *testing.T) {
 	rep.Set("assumptions", []string{
 		"single-part uploads only (blobs < 100 MB): the multi-part / redirect (307) upload path of blobUpload.uploadPart is not driven",
 		"no authentication challenge (401) in the plans",
-		"a PATCH or commit fault costs the client's fixed 1 s retry sleep, so at most one per case",
+		"a PATCH or commit fault costs the client's fixed 1 s retry sleep, so at most one per case; an upload that fails for good costs 63 s and is planned in 1/150 of the thorough-tier cases only (so an error lost between blobUpload.Run and blobUpload.Wait is visible in the thorough tier only)",
 	})
 	n := cfg.N(120, 3000)
 	replayIdx := -1
@@ -452,7 +460,7 @@ func TestVerifC09Push(t *testing.T) {
 			break
 		}
 		rep.Eval(1)
-		c09pRun(t, rep, c09pGen(kit.NewRand(cfg.Seed, "C09P", i), i), base)
+		c09pRun(t, rep, c09pGen(kit.NewRand(cfg.Seed, "C09P", i), i, cfg.Tier == "thorough"), base)
 	}
 	if replayIdx >= 0 {
 		t.Logf("replay of case %d: %d violation(s)", replayIdx, rep.Violations())
